@@ -8,7 +8,7 @@
     proof term checked by Qed. *)
 From Coq Require Import Reals Lra.
 From Interval Require Import Tactic.
-From Cheetah Require Import Bmadx.Coords Bmadx.DriftX Bmadx.Tdc Bmadx.BendX Bmadx.BendXProofs.
+From Cheetah Require Import Bmadx.Coords Bmadx.DriftX Bmadx.Tdc Bmadx.BendX Bmadx.BendXProofs Bmadx.BendXFixed.
 Open Scope R_scope.
 
 Ltac bd_unf t :=
@@ -50,6 +50,7 @@ Ltac bd_let :=
 Ltac bd_chain :=
   repeat first [ bd_let
                | lazymatch goal with |- body_chain _ _ _ _ _ _ _ _ _ _ _ _ _ => cbv beta delta [body_chain] end
+               | lazymatch goal with |- body_chain_fixed _ _ _ _ _ _ _ _ _ _ _ _ _ _ => cbv beta delta [body_chain_fixed] end
                | lazymatch goal with |- _ /\ _ => split; [ bd_side | ] end ].
 
 Ltac bd_final :=
@@ -64,3 +65,13 @@ Ltac bendx_goal sel qd :=
       apply (bend_chain_sound sel qd fen fex b E0 m x px y py t d P)
   end;
   cbv beta iota delta [bend_chain body_chain bd_L bd_ang bd_e1 bd_e2 bd_fint bd_fintx bd_gap bd_gapx bd_tilt]; bd_chain; bd_final.
+
+(** the same for the code after the repair of finding F70 (model bend_bmadx_track_fixed); [k]: the integer
+    torch.round((theta_p - angle)/(4 pi)) chosen by the harness, justified by the side condition |(theta_p - angle)/(4 pi) - k| < 1/2 *)
+Ltac bendx_goal_fixed sel qd k :=
+  lazymatch goal with
+  | |- let o := bend_bmadx_track_fixed ?fen ?fex ?b ?E0 ?m (mkc ?x ?px ?y ?py ?t ?d) in @?P o =>
+      change (P (bend_bmadx_track_fixed fen fex b E0 m (mkc x px y py t d)));
+      apply (bend_chain_fixed_sound sel qd k fen fex b E0 m x px y py t d P)
+  end;
+  cbv beta iota delta [bend_chain_fixed body_chain_fixed bd_L bd_ang bd_e1 bd_e2 bd_fint bd_fintx bd_gap bd_gapx bd_tilt]; bd_chain; bd_final.
